@@ -36,3 +36,4 @@ def check(ctx):
     drivers.create_impl_table(ctx)
     dispatch.hamiltonian_type_table(ctx)
     drivers.sv_solver_table(ctx)
+    drivers.make_h_binding(ctx)
